@@ -4,6 +4,7 @@ import (
 	"encoding/binary"
 	"errors"
 	"fmt"
+	"math"
 )
 
 const (
@@ -134,6 +135,9 @@ var (
 	ErrPanic = errors.New("user error")
 	// ErrUnknownOpcode is returned when an unknown opcode is encountered.
 	ErrUnknownOpcode = fmt.Errorf("%w: unknown opcode", ErrInternal)
+	// ErrProgramTooLarge is returned when a program needs an operand (a
+	// constant, variable or jump position) beyond the 16-bit operand width.
+	ErrProgramTooLarge = fmt.Errorf("%w: program too large for 16-bit operands", ErrPanic)
 )
 
 // definitions is a mapping of OpCode to OpDefinition.
@@ -214,7 +218,10 @@ func Make(op Opcode, operands ...int) ([]byte, error) {
 	for i, o := range operands {
 		width := def.OperandWidths[i]
 		if width == 2 {
-			binary.BigEndian.PutUint16(instruction[offset:], uint16(o)) //nolint:gosec // we are just going to be lax about overflow errors at the moment
+			if o < 0 || o > math.MaxUint16 {
+				return nil, fmt.Errorf("%w: operand %d of %s does not fit into 16 bits", ErrProgramTooLarge, o, def.Name)
+			}
+			binary.BigEndian.PutUint16(instruction[offset:], uint16(o))
 		}
 		offset += width
 	}
